@@ -761,7 +761,7 @@ func (g *generator) storeLengths() {
 
 func (g *generator) enter() {
 	g.vm.pushCtx()
-	g.vm.pushTryFrame(tryPanicMarker, -1)
+	g.vm.pushTryFrame(tryPanicMarker, tryGeneratorMarker)
 	g.vm.prg, g.vm.sb, g.vm.pc = nil, -1, -2 // so that vm.run() halts after ret
 	g.storeLengths()
 }
@@ -862,7 +862,7 @@ func (g *generator) step() (res Value, resultType resultType, ex *Exception) {
 
 func (g *generator) enterNext() {
 	g.vm.pushCtx()
-	g.vm.pushTryFrame(tryPanicMarker, -1)
+	g.vm.pushTryFrame(tryPanicMarker, tryGeneratorMarker)
 	g.vm.callStack = append(g.vm.callStack, context{pc: -2}) // extra frame so that vm.run() halts after ret
 	g.storeLengths()
 	g.vm.resume(&g.ctx)
